@@ -58,6 +58,16 @@ CLASSES: List[Tuple[int, str, List[str], str, dict]] = [
     (43, "c18w", ["RegPoint"], "R", {}),
     # registration HISTORIES (set up in world()): 70 is registered only after a first, refused to_json; 72 is registered, used,
     # then registered again with another representation.  Afterwards both are ordinary registered types of every generated value.
+    # finding C18-d: classes that ALSO derive from a builtin type
+    (80, "c18w", ["RegStatus"], "R", {"builtin": "int"}),
+    (81, "c18w", ["RegCelsius"], "R", {"builtin": "float"}),
+    (82, "c18w", ["RegPair"], "R", {"builtin": "tuple"}),
+    (84, "c18w", ["SerTrajectory"], "S", {"base": None, "define": True, "builtin": "list"}),
+    (85, "c18w", ["SerFrame"], "S", {"base": None, "define": True, "builtin": "str"}),
+    # finding C18-c: classes that are not bound under their qualified name in their module
+    (78, "builtins", ["mappingproxy"], "R", {"real": types.MappingProxyType, "unbound": True}),
+    (87, "c18w", ["Planner"], "P", {}),
+    (86, "c18w", ["Planner", "__State"], "S", {"base": None, "define": True, "nested_in": 87, "bind_as": "_Planner__State", "unbound": True}),
     (74, "c18w", ["SelfDescribing"], "R", {}),    # registered external type that has its OWN methods named to_json / from_json
     (76, "c18w", ["ClearedReg"], "R", {}),        # registered, used, registry singleton cleared, registered again on the new instance
     (70, "c18w", ["LateReg"], "R", {}),
@@ -76,8 +86,13 @@ CLASSES: List[Tuple[int, str, List[str], str, dict]] = [
 LOCAL = {cid for cid, _, q, _, _ in CLASSES if "<locals>" in q}            # known-finding class K_local (C18-b)
 NESTED = {cid for cid, _, q, k, _ in CLASSES if len(q) > 1 and k == "S" and "<locals>" not in q}   # in F since 70c605d
 INPLACE = {10, 21, 24, 31, 60}      # defining classes that extend super().to_json() in place (their heirs 12, 23, 26 too)
-SER_OK = [cid for cid, _, q, k, _ in CLASSES if k == "S" and "<locals>" not in q]
-REG_OK = [cid for cid, _, q, k, _ in CLASSES if k == "R"]
+UNBOUND = {cid for cid, _, _, _, h in CLASSES if h.get("unbound")}          # known-finding class K_unbound (C18-c)
+BUILTIN_BASE = {cid for cid, _, _, _, h in CLASSES if h.get("builtin")}     # known-finding class K_builtin_base (C18-d)
+FINDING_OF = {**{c: "C18-b" for c in LOCAL}, **{c: "C18-c" for c in UNBOUND}, **{c: "C18-d" for c in BUILTIN_BASE}}
+SER_OK = [cid for cid, _, q, k, _ in CLASSES if k == "S" and cid not in FINDING_OF]
+REG_OK = [cid for cid, _, q, k, _ in CLASSES if k == "R" and cid not in FINDING_OF]
+BUILTINS = {"int": int, "float": float, "str": str, "list": list, "tuple": tuple, "set": set}
+PYTYPE = {"int": "Tint", "float": "Tfloat", "str": "Tstr", "list": "Tlist", "tuple": "Ttuple", "set": "Tset"}
 DEPTH_OF = {56: 2, 10: 1, 12: 2, 13: 3, 15: 4, 21: 1, 23: 2, 24: 3, 26: 4, 30: 1, 31: 2, 60: 1, 52: 1, 62: 1, 64: 1}
 
 _WORLD: Dict[str, Any] = {}
@@ -141,6 +156,8 @@ def world() -> Dict[str, Any]:
         ns: Dict[str, Any] = {"__module__": mod, "__qualname__": ".".join(qual)}
         if kind == "S":
             bases = (cls[how["base"]],) if how.get("base") else (SubclassJSONSerializer,)
+            if how.get("builtin"):
+                bases = (BUILTINS[how["builtin"]],) + bases
             if how["define"]:
                 inplace = cid in INPLACE
                 tj, fj = layout0(inplace) if cid % 2 == 0 else layout1(inplace)
@@ -148,14 +165,21 @@ def world() -> Dict[str, Any]:
             if not how.get("base"):
                 ns.update(__init__=init, __eq__=eq, __hash__=None,
                           __repr__=lambda self: f"{type(self).__qualname__}({self.own!r}, {self.kids!r})")
+            if how.get("builtin") == "list":          # the list content of the object is its child values
+                def init_list(self, own=None, kids=()):
+                    list.__init__(self, kids)
+                    self.own, self.kids = own, list(kids)
+                ns["__init__"] = init_list
+            if how.get("builtin") == "str":           # the str content of the object is its payload
+                ns["__new__"] = lambda k, own="", kids=(): str.__new__(k, own)
         else:
-            bases = (cls[how["base"]],) if how.get("base") else ()
+            bases = (cls[how["base"]],) if how.get("base") else ((BUILTINS[how["builtin"]],) if how.get("builtin") else ())
         c = type(qual[-1], bases, ns)
         cls[cid] = c
         if len(qual) == 1:
             setattr(mods[mod], qual[0], c)
         elif "nested_in" in how:
-            setattr(cls[how["nested_in"]], qual[-1], c)
+            setattr(cls[how["nested_in"]], how.get("bind_as", qual[-1]), c)
     # RegPoint: a harness type with a registered (de)serialiser pair; datetime and Fraction likewise
     RP = cls[43]
     RP.__init__ = lambda self, x=0, y=0: (setattr(self, "x", x), setattr(self, "y", y)) and None
@@ -219,6 +243,10 @@ def world() -> Dict[str, Any]:
     except Exception as e:  # noqa
         history["rereg:first_round_trip"] = type(e).__name__
     register(RR, lambda o: [o.x, o.y], lambda v: RR(v[0], v[1]))
+    register(cls[80], lambda o: int(o), lambda v: cls[80](v))
+    register(cls[81], lambda o: float(o), lambda v: cls[81](v))
+    register(cls[82], lambda o: list(o), lambda v: cls[82](v))
+    register(types.MappingProxyType, lambda o: sorted([k, v] for k, v in o.items()), lambda v: types.MappingProxyType({k: x for k, x in v}))
     register(complex, lambda o: [int(o.real), int(o.imag)], lambda v: complex(v[0], v[1]))
     register(bytes, lambda o: list(o), lambda v: bytes(v))
     register(range, lambda o: [o.start, o.stop, o.step], lambda v: range(v[0], v[1], v[2]))
@@ -250,6 +278,8 @@ def jv_term(v) -> str:
         return f"(JBool {'true' if v else 'false'})"
     if isinstance(v, int):
         return f"(JInt {core.zlit(v)})"
+    if isinstance(v, float):
+        return f"(JFloat {float_bits(v)})"
     if isinstance(v, str):
         return f"(JStr {strlit(v)})"
     if isinstance(v, list):
@@ -260,10 +290,12 @@ def jv_term(v) -> str:
 def world_header() -> str:
     kinds = {"S": "KSer", "R": "KReg", "P": "KPlain"}
     lines = []
-    for cid, mod, qual, kind, _ in CLASSES:
+    for cid, mod, qual, kind, how in CLASSES:
+        base = f"Some {PYTYPE[how['builtin']]}" if how.get("builtin") else "None"
         lines.append(f"Definition C{cid} : cls := {{| c_mod := {strlit(mod)}; c_qual := [{'; '.join(strlit(q) for q in qual)}]; "
-                     f"c_kind := {kinds[kind]}; c_id := {cid} |}}.")
-    lines.append("Definition W : world := [" + "; ".join(f"C{cid}" for cid, *_ in CLASSES) + "].")
+                     f"c_kind := {kinds[kind]}; c_id := {cid}; c_base := {base} |}}.")
+    # the world = the classes that are BOUND under their qualified name (K_unbound classes are defined but not in it)
+    lines.append("Definition W : world := [" + "; ".join(f"C{cid}" for cid, _, _, _, how in CLASSES if not how.get("unbound")) + "].")
     return "\n".join(lines)
 
 
@@ -319,6 +351,10 @@ def build(d):
         return fractions.Fraction(own[0], own[1])
     if cid == 43:
         return c(own[0], own[1])
+    if cid in (80, 81, 82):
+        return c(own)
+    if cid == 78:
+        return types.MappingProxyType({k: x for k, x in own})
     if cid == 47:
         return complex(own[0], own[1])
     if cid == 48:
@@ -382,6 +418,14 @@ def enc(r):
         return [6, cid, enc_jv([r.numerator, r.denominator]), []]
     if cid == 43:
         return [6, cid, enc_jv([r.x, r.y]), []]
+    if cid == 80:
+        return [6, cid, enc_jv(int(r)), []]
+    if cid == 81:
+        return [6, cid, enc_jv(float(r)), []]
+    if cid == 82:
+        return [6, cid, enc_jv(list(r)), []]
+    if cid == 78:
+        return [6, cid, enc_jv(sorted([k, v] for k, v in r.items())), []]
     if cid == 47:
         return [6, cid, enc_jv([int(r.real), int(r.imag)] if r.real == int(r.real) and r.imag == int(r.imag) else [r.real, r.imag]), []]
     if cid == 48:
@@ -413,6 +457,24 @@ def typed_equal(a, b) -> bool:
     return a == b
 
 
+def plain_json(x):
+    """what json.dumps sees: an instance of a subclass of int / float / str / list / tuple is written as that builtin value
+    (to_json hands such objects through untouched: finding C18-d); plain JSON data is returned unchanged"""
+    if x is None or isinstance(x, bool):
+        return x
+    if isinstance(x, int):
+        return int(x)
+    if isinstance(x, float):
+        return float(x)
+    if isinstance(x, str):
+        return str(x)
+    if isinstance(x, (list, tuple)):
+        return [plain_json(y) for y in x]
+    if isinstance(x, dict):
+        return {k: plain_json(v) for k, v in x.items()}
+    return x
+
+
 def tags_of(j) -> List[List[int]]:
     out = []
     if isinstance(j, list):
@@ -433,7 +495,7 @@ def run_impl(d) -> Any:
         j = to_json(v)
         text = json.dumps(j)
         j2 = json.loads(text)
-        if not typed_equal(j, j2):
+        if not typed_equal(plain_json(j), j2):
             return [50]
         r = from_json(j2)
     except BaseException as e:  # noqa
@@ -529,12 +591,28 @@ def gen_value(rng, list_depth: int, obj_depth: int, nested_p: float) -> list:
         return ["l", [gen_value(rng, list_depth - 1, obj_depth, nested_p) for _ in range(n)]]
     if r < 0.62 and obj_depth > 0:
         if rng.chance(nested_p):
-            cid = rng.choice(sorted(LOCAL))
+            return gen_finding(rng, list_depth, obj_depth)
         else:
             cid = rng.choice(SER_OK)
         n = rng.choice([0, 0, 1, 1, 2, 3])
         return ["o", cid, rng.choice(OWNS), [gen_value(rng, list_depth, obj_depth - 1, nested_p) for _ in range(n)]]
     return gen_leaf(rng)
+
+
+def gen_finding(rng, list_depth: int, obj_depth: int) -> list:
+    """an object of one of the known-finding classes (K_local, K_unbound, K_builtin_base)"""
+    cid = rng.choice(sorted(FINDING_OF))
+    if cid == 80:
+        return ["o", 80, rng.choice([0, 1, 404, -7, 2 ** 70]), []]
+    if cid == 81:
+        return ["o", 81, rng.choice([0.5, -21.5, 1e10, 0.0]), []]
+    if cid == 82:
+        return ["o", 82, [rng.randint(-9, 9) for _ in range(rng.randint(0, 3))], []]
+    if cid == 78:
+        return ["o", 78, [[k, rng.randint(0, 9)] for k in sorted(rng.sample(["a", "b", "c"], rng.randint(0, 3)))], []]
+    own = rng.choice(["map", "", "é"]) if cid == 85 else rng.choice(OWNS)
+    n = rng.choice([0, 1, 2])
+    return ["o", cid, own, [gen_value(rng, list_depth, max(obj_depth - 1, 0), 0.0) for _ in range(n)]]
 
 
 def gen_same_class(rng, nested_p: float) -> list:
@@ -584,8 +662,13 @@ def list_depth(d) -> int:
     return 0
 
 
+def findings_in(d) -> List[str]:
+    """ids of the known-finding classes this value belongs to (decidable class predicates, mirrored by F in Coq)"""
+    return sorted({FINDING_OF[x[1]] for x in walk(d) if x[0] == "o" and x[1] in FINDING_OF})
+
+
 def has_local(d) -> bool:
-    return any(x[0] == "o" and x[1] in LOCAL for x in walk(d))
+    return bool(findings_in(d))
 
 
 def fixed_cases() -> List[list]:
@@ -615,6 +698,9 @@ def fixed_cases() -> List[list]:
         v = ["o", cid, cid, [["l", [v, ["o", 40, UUIDS[1], []]]]]]
     out.append(v)
     out.append(["l", [["o", 10, 1, []], ["o", 31, 1, []], ["o", 12, 1, []], ["o", 60, 1, []]]])   # same names, different modules
+    out += [["o", 80, 404, []], ["o", 81, 21.5, []], ["o", 82, [1, 2], []], ["o", 84, 0, [["i", 1], ["i", 2]]], ["o", 84, "t", []],
+            ["o", 85, "map", []], ["o", 85, "é", [["i", 1]]], ["o", 78, [["a", 1], ["b", 2]], []], ["o", 86, 0, []],
+            ["l", [["o", 10, 0, [["o", 80, 7, []], ["o", 84, 1, [["o", 10, 2, []]]]]], ["o", 86, 1, [["n"]]]]]]
     for cid in sorted(NESTED | LOCAL):      # nested classes (regression of C18-a) and the known-finding class K_local
         out.append(["o", cid, 3, []])
         out.append(["l", [["o", 10, 0, [["o", cid, 1, []]]]]])
@@ -706,7 +792,7 @@ def run(tier: str, seed: int, replay=None) -> int:
     rep.rule = ("fixed edge list (every leaf kind incl. 2**70, +-inf, -0.0, lone surrogates, NUL, empty and 4-deep lists, every class of 3 subclass chains "
                 "of depth 1-4 in both styles of extending super().to_json() (copy / in-place), 15 registered third-party types (4 living in module builtins; one with its own to_json/from_json methods; histories run once per process in world(): registry singleton cleared and everything registered again on the new instance, a type registered only after a first refused to_json, a type registered twice with different representations) incl. two base/derived "
                 "pairs registered base-first, 2-4 different instances of one class as siblings / kids / parent-child in every 5th random value) + seeded grammar-directed random values (list depth <= 4, object depth <= 4, ~4% with a "
-                "function-local serialiser class = known-finding class K_local; classes nested in classes are ordinary members of the class pool); thorough adds all values of <= 4 nodes over a 7-leaf alphabet; "
+                "a member of a known-finding class (K_local: function-local; K_unbound: not bound under its qualified name -- builtins.mappingproxy, name-mangled Planner.__State; K_builtin_base: also derives from int / float / str / list / tuple); classes nested in classes are ordinary members of the class pool); thorough adds all values of <= 4 nodes over a 7-leaf alphabet; "
                 "non-trivial = contains at least one list or object; distinct = distinct value")
     ok_spec, log = core.coq_make(["Base/Sx.vo", "Json/JsonVal.vo", "Json/SerializerSpec.vo"])
     rep.oblige("build:spec", ok_spec, "" if ok_spec else core.first_error(log))
@@ -758,7 +844,10 @@ def run(tier: str, seed: int, replay=None) -> int:
                 dist["chain_depth"][cd] = dist["chain_depth"].get(cd, 0) + 1
             else:
                 dist["leaf_kinds"][x[0]] = dist["leaf_kinds"].get(x[0], 0) + 1
-        nested = has_local(d)           # membership in the known-finding class K_local
+        kfs = findings_in(d)            # membership in the known-finding classes (K_local, K_unbound, K_builtin_base)
+        nested = bool(kfs)
+        for k in kfs:
+            dist["K:" + k] = dist.get("K:" + k, 0) + 1
         dist["K_local" if nested else "in_F"] += 1
         dist["nested_class_objects"] += sum(1 for x in nodes if x[0] == "o" and x[1] in NESTED)
         ok = f"{im[0]}" + (f":{im[1]}" if im[0] in (20, 30) else "")
@@ -768,14 +857,16 @@ def run(tier: str, seed: int, replay=None) -> int:
         failing_by_src.setdefault(src, []).append(d)
         if code == 1:
             if nested:
-                rep.note(f"model stale on K_local: finding C18-b appears repaired on {json.dumps(d)[:200]}")
+                rep.note(f"model stale on {kfs}: finding appears repaired on {json.dumps(d)[:200]}")
             else:
                 rep.oblige("correspondence:model", False, f"model differs from impl=spec on {json.dumps(d)[:300]}")
             continue
-        # known finding C18-b: narrow match = the class predicate AND the outcome the faithful model predicts (code 2);
-        # when the model cannot be built, the outcome recorded with the witness (ClassNotSerializableError at to_json)
-        if nested and (code == 2 or (not model_ok and im == [20, 5])):
-            kf_instances["C18-b"] = kf_instances.get("C18-b", 0) + 1
+        # known findings: narrow match = the class predicate AND the outcome the faithful model predicts (code 2); when the model
+        # cannot be built, the defect behaviour recorded with the witness: C18-b ClassNotSerializableError at to_json,
+        # C18-c ClassNotFoundError at from_json, C18-d a value is returned (the object came back as the builtin it also is)
+        recorded = {"C18-b": im == [20, 5], "C18-c": im == [20, 4], "C18-d": im[0] == 0}
+        if nested and (code == 2 or (not model_ok and any(recorded[k] for k in kfs))):
+            kf_instances[kfs[0]] = kf_instances.get(kfs[0], 0) + 1
             continue
         bad.append((d, im, code))
     rep.extra["distribution"] = dist
